@@ -92,6 +92,13 @@ def classify_m6(wire, acc: hap.SetupAccessory, honest_wire):
     return "forged", None
 
 
+def _interleave(extra, sub):
+    """extra items first, then the authentic ones, never two items of one type next to each other (a signature item is used as the divider)"""
+    sig = [i for i in sub if i[0] == hap.T_SIG]
+    rest = [i for i in sub if i[0] != hap.T_SIG]
+    return list(extra) + sig + rest
+
+
 def case_setup(p):
     cfg, style, fault, arg = p["cfg"], p["style"], p["fault"], p.get("arg")
     run = _run(cfg, style, p.get("seed", 0))
@@ -260,6 +267,14 @@ def case_setup(p):
         wire = tlv8.encode(acc.m6(sub_override=lambda sub: [(t, run.other.pk if t == hap.T_PK else v) for t, v in sub]))
     elif f == "m6-other-identity-consistent":
         wire = tlv8.encode(acc.m6(ident=run.other))
+    elif f == "m6-second-identity":
+        # the authentic items plus a second, unsigned identifier / key (not adjacent to the first of its type, so TLV8 keeps them apart): what
+        # comes back, if anything, is the identity the signature covers
+        extra = {"id": [(hap.T_ID, run.other.id)], "pk": [(hap.T_PK, run.other.pk)], "both": [(hap.T_ID, run.other.id), (hap.T_PK, run.other.pk)]}[arg[0]]
+        if arg[1] == "after":
+            wire = tlv8.encode(acc.m6(sub_override=lambda sub: list(sub) + extra))
+        else:
+            wire = tlv8.encode(acc.m6(sub_override=lambda sub: _interleave(extra, list(sub))))
     elif f == "m6-sig-with-x":
         # signature computed with the wrong HKDF label for AccessoryX
         x = {"ctrl": k["ctrl_x"], "enc": k["enc"], "K": acc.K[:32], "none": b""}[arg]
@@ -381,6 +396,7 @@ def run(ctx):
         fl += [("m6-pk-bitflip", b) for b in bitsel(256)]
         fl += [("m6-id-bitflip", b) for b in bitsel(idlen * 8)]
         fl += [("m6-sig-over-other-id", None), ("m6-sig-over-other-pk", None), ("m6-signed-by-other-key", None), ("m6-presented-other-pk", None), ("m6-other-identity-consistent", None)]
+        fl += [("m6-second-identity", [w, pos]) for w in ("id", "pk", "both") for pos in ("after", "before")]
         fl += [("m6-sig-with-x", x) for x in ("ctrl", "enc", "K", "none")] + [("m6-sig-trunc", n) for n in (0, 32, 63)]
         for style in pairdrv.STYLES:
             plist += [{"cfg": cfg, "style": style, "fault": f, "arg": a} for f, a in fl]
